@@ -20,7 +20,14 @@ use crate::stm::{StmClosureResult, StmError, Transaction, atomically};
 // use thread local hashset and queue for orbit traversal of ID comp.
 // not applied to orbit currently bc they are lazily onsumed, and therefore require dedicated
 // instances to be robust
+#[cfg(not(honeycomb_verif))]
 thread_local! {
+    static AUXILIARIES: RefCell<(VecDeque<DartIdType>, HashSet<DartIdType>)> = RefCell::new((VecDeque::with_capacity(10), HashSet::with_capacity(10)));
+}
+// verification hook (off by default): under a deterministic scheduler every simulated thread runs
+// on the same OS thread, so the scratch buffers must be local to the *simulated* thread
+#[cfg(honeycomb_verif)]
+crate::stm::sim_thread_local! {
     static AUXILIARIES: RefCell<(VecDeque<DartIdType>, HashSet<DartIdType>)> = RefCell::new((VecDeque::with_capacity(10), HashSet::with_capacity(10)));
 }
 
